@@ -261,7 +261,7 @@ class Stacker(Transformer):
         feature_name = self.feature_name
         has_only_one_sample_dim = len(self.dims_mapping[sample_name]) == 1
 
-        if has_only_one_sample_dim:
+        if has_only_one_sample_dim and sample_name in X.dims:
             X = X.rename({sample_name: self.dims_mapping[sample_name][0]})
 
         ds: DataSet = X.to_unstacked_dataset(feature_name, "variable").unstack()
